@@ -234,11 +234,28 @@ func runFull(out *c.Out, r *c.Rng, nSeq int) {
 			must(w.tApp.GetBankKeeper().SendCoinsFromAccountToModule(ctx, w.user, kavadisttypes.KavaDistMacc, sdk.NewCoins(sdk.NewInt64Coin("usdx", 1000))))
 		}
 
+		// the harness's own log for the staking predicates: reference time of the next block (the
+		// accumulation time the history starts with, then the previous block time) and, per block,
+		// (block time, rate in force, amount paid)
+		start := w.observe(ctx)
+		refT := start.fields[7] // LastAccumulationTime the history was configured with ("none" = not initialised)
+		ref0, e0 := refT, start.fields[8]
+		var stakeLog []string
+		zeroRun, switches := 0, map[string]bool{}
 		for b := 0; b < nb; b++ {
 			now := times[b]
 			// ---- things other actors do between blocks
 			if r.Chance(10) {
 				must(ck.FundCommunityPool(ctx, w.user, sdk.NewCoins(sdk.NewInt64Coin("ukava", r.Range(1, 100)))))
+			}
+			if r.Chance(6) || (zeroRun >= 2 && r.Chance(25)) { // params update of the staking rate (also zero ↔ non-zero)
+				p, _ := ck.GetParams(ctx)
+				nr, _ := rate(r)
+				if !p.StakingRewardsPerSecond.IsZero() && r.Chance(40) {
+					nr = bi(0)
+				}
+				p.StakingRewardsPerSecond = dec(nr)
+				ck.SetParams(ctx, p)
 			}
 			if r.Chance(4) { // governance toggles kavadist (never back on after the switch-over fired)
 				p, _ := ck.GetParams(ctx)
@@ -271,14 +288,36 @@ func runFull(out *c.Out, r *c.Rng, nSeq int) {
 			}
 			sig := fmt.Sprintf("fired=%v after=%v init=%v paid=%v pool=%d kdActive=%s kdMinted=%v kd=%s", fired, after,
 				pre.fields[7] != "none", paid.Sign() != 0, poolClass, pre.fields[5], kdM, kdClass)
-			fields := []string{fmt.Sprint(now), inflow.String(), mintProv.String()}
+			fields := []string{fmt.Sprint(now), inflow.String(), mintProv.String(), refT}
 			fields = append(fields, pre.fields[:12]...)
 			fields = append(fields, periodsStr(ps), periodsStr(infra), pre.fields[12], pre.fields[13], "=>", string(cls))
 			fields = append(fields, post.fields...)
 			out.Case(sig, "c19.fullblock", fields...)
 			if cls != kapp.OK {
-				return
+				break
 			}
+			// log: rate in force in this block = the rate after the switch-over of this block
+			poolIn := new(big.Int).Set(pre.pool)
+			if fired {
+				poolIn.Add(poolIn, inflow.BigInt())
+			}
+			stakeLog = append(stakeLog, fmt.Sprintf("%d:%s:%s", now, post.fields[1], new(big.Int).Sub(poolIn, post.pool)))
+			if post.fields[1] == "0" {
+				zeroRun++
+			} else {
+				if zeroRun >= 2 {
+					if fired {
+						switches["upgrade-after-zero-run"] = true
+					} else {
+						switches["params-after-zero-run"] = true
+					}
+				}
+				zeroRun = 0
+			}
+			refT = fmt.Sprint(now)
+		}
+		if len(stakeLog) > 0 {
+			out.Case("stakehist "+strings.Join(c.SortedKeys(switches), ","), "c19.stakehist", ref0, e0, strings.Join(stakeLog, ";"), "=>", "-")
 		}
 	})
 }
